@@ -38,6 +38,7 @@ def plan(tier, seed):
     for n in range(0, maxlen + 1):
         for sizes in itertools.product((1, 2), repeat=n):
             ch.append({'k': 'syn', 'sizes': list(sizes)})
+    ch.append({'k': 'rewrite'})
     ch.append({'k': 'shipped', 'type': 'mex'})
     ch.append({'k': 'shipped', 'type': 'nimitz'})
     return ch
@@ -48,6 +49,8 @@ _files = {}
 
 def field_names(sizes, variant):
     """variant bit 2: every field of a given width carries the same name (reserved / pad fields repeat in real tables)"""
+    if variant & 8:
+        return [('hl i2c bus-%d events (w=%d).' % (i, s), s) for i, s in enumerate(sizes)]
     if variant & 4:
         return [('hl_reserved_w%d' % s, s) for s in sizes]
     return [('field_%d_w%d' % (i, s), s) for i, s in enumerate(sizes)]
@@ -79,8 +82,34 @@ def shipped_path(t):
     raise KeyError(t)
 
 
+def _rewrite_case(case):
+    """The header file at ONE path is rewritten between decodes; each decode must use the field table as it is now."""
+    from io_drawer.hlog import parse_hlog_data
+    import shutil
+    out = []
+    d = tempfile.mkdtemp(prefix='c16r_', dir=clidrv.scratch_root())
+    try:
+        path = os.path.join(d, 'h.h')
+        data = bytes([1, 2, 3, 4, 5, 6])
+        for step, sizes in enumerate(case['tables']):
+            fields = [('v%d_f%d' % (step, i), sz) for i, sz in enumerate(sizes)]
+            cheader.write_header(path, [('01040000', 'x', [])], fields)
+            lines = parse_hlog_data(memoryview(data), path)
+            dump, flds = rhlog.split_output(lines)
+            want = rhlog.field_lines(data, fields)
+            LAST['n'] = len(want)
+            if flds != want:
+                out.append({'key': 'C16:stale-table', 'what': 'step %d (table %s written to the same path): fields %r, expected %r' % (step, sizes, flds, want), 'case': case})
+                break
+    finally:
+        shutil.rmtree(d, ignore_errors=True)
+    return out
+
+
 def eval_case(case):
     impl.ensure(False)
+    if 'tables' in case:
+        return _rewrite_case(case)
     from io_drawer.hlog import parse_hlog_data
     data = bytes.fromhex(case['data'])
     if 'sizes' in case:
@@ -131,10 +160,14 @@ def _do(res, case, step=499):
 def run_chunk(chunk):
     res = ChunkResult()
     impl.ensure(False)
-    if chunk['k'] == 'syn':
+    if chunk['k'] == 'rewrite':
+        tbls = [[1, 1, 2], [2, 2], [1], [], [2, 1, 1, 1]]
+        for order in itertools.permutations(range(len(tbls)), 3):
+            _do(res, {'tables': [tbls[i] for i in order]}, step=13)
+    elif chunk['k'] == 'syn':
         sizes = chunk['sizes']
         total = sum(sizes)
-        for variant in range(8):
+        for variant in (0, 1, 2, 3, 4, 5, 6, 7, 8, 11):
             for n in range(0, total + 3):
                 if n <= 7 and variant in (0, 4):
                     for vals in itertools.product((0x00, 0x01, 0xff), repeat=n):
